@@ -83,6 +83,7 @@ type Unit struct {
 	litFrame   *frame
 	spawned    []*modSet
 	locks      []lockLoc
+	rangeStack []Term
 }
 
 type closure struct {
